@@ -56,6 +56,7 @@ Section Frag.
     match o with
     | PNew _ _ => true
     | PBind p _ MImmediate => lookup_none (w_props w) p
+    | PReset _ => true
     | _ => act2_opb w o
     end.
   Lemma grow_act_opb_sound w o : grow_act_opb w o = true -> PropGrowAct2.grow_act2_op w o.
